@@ -268,7 +268,9 @@ func (iter *inIndexIterator) nextIterator() (bool, error) {
 
 // createIteratorForNextValue initializes the next index iterator based on the current value index.
 func (iter *inIndexIterator) createIteratorForNextValue() error {
-	if iter.isUnique {
+	// a nil value is never stored under the full key of a unique index (the docID is appended
+	// to the key), so it has to be fetched by prefix
+	if iter.isUnique && !iter.inValues[iter.nextValIndex].IsNil() {
 		indexIter, err := iter.fetcher.newEqSingleIndexIterator(iter.inValues[iter.nextValIndex], iter.fieldConditions)
 		if err != nil {
 			return err
